@@ -357,19 +357,22 @@ def final_state(ctx, d, cap_own):
     return None
 
 
-def oracle_case(ctx, kind, v, s, family, cap_own=None, form="plain", wires=None):
+def oracle_case(ctx, kind, v, s, family, cap_own=None, form="plain", wires=None, builder=None, rep_extra=None):
+    """`v`: the input as a complex array (the harness's own conversion of what the user passed); `builder`: optional
+    callable returning (gate, definition, capture) for call forms that `build` does not know (diversity section)."""
     cap_own = cap_own or (OWN_CAP_QUICK if ctx.quick else OWN_CAP_THOROUGH)
     n = int(round(math.log2(len(v))))
     stag = "default" if s is None else str(s)
     base = f"{kind}:n={n}:s={stag}:{family}" + ("" if form == "plain" else f":form={form}")
     rep = {"class": "BdspInitialize" if kind == "bdsp" else "DcspInitialize", "kind": kind, "n": n, "s": s,
            "family": family, "re": [float(a.real) for a in v], "im": [float(a.imag) for a in v], "form": form, "wires": wires}
+    rep.update(rep_extra or {})
     try:
-        gate, d, cap = build(kind, v, s, form, wires)
+        gate, d, cap = builder() if builder else build(kind, v, s, form, wires)
     except Exception as e:  # construction must never fail on a valid input
         ctx.fail(base + ":raises", f"{type(e).__name__}: {e}", rep)
         return
-    if form != "plain":
+    if form != "plain" and builder is None:
         ctx.count("branch:call-form:" + kind + ":" + form)
     # tree_register.output: the library's own list of output qubits is wires 0..n-1 of the definition, in order
     try:
@@ -383,25 +386,33 @@ def oracle_case(ctx, kind, v, s, family, cap_own=None, form="plain", wires=None)
         ctx.fail(base + ":output-helper", f"tree_register.output lists wires {out_idx}, expected 0..{n - 1}", rep)
         return
     ctx.count("branch:tree_register.output")
+    want = np.abs(v) ** 2
+    want = want / want.sum()     # == |a_k|^2 for a unit vector (float32 inputs are unit only to 1e-7)
     if "host" in cap:
         host = cap["host"]
-        got = [host.find_bit(q).index for q in host.data[0].qubits]
-        if got != cap["wires"] or len(host.data) != 1:
-            ctx.fail(base + ":static-wiring", f"initialize(...) appended on wires {got}, asked {cap['wires']}", rep)
+        wires_list = cap.get("wires_list") or [cap["wires"]]
+        got = [[host.find_bit(q).index for q in inst.qubits] for inst in host.data]
+        if got != [list(w) for w in wires_list]:
+            ctx.fail(base + ":static-wiring", f"gate appended on wires {got}, asked {wires_list}", rep)
             return
         if host.num_qubits <= DENSE_CAP:
             # marginal of the host circuit on the wires that carry the gate's output qubits 0..n-1
             from qiskit.quantum_info import Statevector
-            pr = Statevector(host).probabilities([cap["wires"][k] for k in range(n)])
-            err = float(np.abs(pr - np.abs(v) ** 2).max())
-            if err > TOL:
-                ctx.fail(base + ":static-marginal", f"host-circuit marginal on wires {cap['wires'][:n]} off by {err:.3e}", rep)
-                return
+            hsv = Statevector(host)
+            for wl in wires_list:
+                pr = hsv.probabilities([wl[k] for k in range(n)])
+                err = float(np.abs(pr - want).max())
+                if err > TOL:
+                    ctx.fail(base + ":static-marginal", f"host-circuit marginal on wires {wl[:n]} off by {err:.3e}", rep)
+                    return
             ctx.count("branch:static-host-marginal-checked")
     seff = gate.split if kind == "bdsp" else 1
-    formula = (seff + 1) * 2 ** (n - seff) - 1 if kind == "bdsp" else 2 ** n - 1
-    if s is None and kind == "bdsp" and seff != math.ceil(n / 2):
-        ctx.fail(base + ":default-split", f"default split {seff} != ceil(n/2) = {math.ceil(n / 2)}", rep)
+    # the ideal width comes from the REQUESTED split (or ceil(n/2)), not from what the gate says it used
+    formula = declared_width(kind, n, s)
+    if kind == "bdsp" and seff != gate_split(n, s):
+        ctx.fail(base + (":default-split" if s is None else ":split"),
+                 f"gate.split = {seff!r}, requested {'default ceil(n/2) = ' + str(math.ceil(n / 2)) if s is None else s}", rep)
+        return
     if not (gate.num_qubits == d.num_qubits == formula):
         ctx.fail(base + ":width", f"declared {gate.num_qubits}, circuit {d.num_qubits}, formula {formula}",
                  dict(rep, declared=gate.num_qubits, circuit=d.num_qubits, formula=formula))
@@ -412,7 +423,6 @@ def oracle_case(ctx, kind, v, s, family, cap_own=None, form="plain", wires=None)
         ctx.ok(base + ":width", nontrivial=False)
         return
     probs = (np.abs(psi) ** 2).reshape(-1, 2 ** n).sum(axis=0)
-    want = np.abs(v) ** 2
     err = float(np.abs(probs - want).max())
     nz = int(np.sum(np.abs(v) > 0))
     if err > TOL:
@@ -420,20 +430,40 @@ def oracle_case(ctx, kind, v, s, family, cap_own=None, form="plain", wires=None)
         ctx.fail(base + ":marginal", f"P(output={k}) = {probs[k]:.9f}, |a_k|^2 = {want[k]:.9f} (max err {err:.3e})",
                  dict(rep, observed=probs.tolist(), expected=want.tolist()))
         return
-    if kind == "bdsp" and seff == n:
-        ov = abs(np.vdot(v, psi))
-        if d.num_qubits != n or abs(ov - 1) > TOL:
-            ctx.fail(base + ":s=n-state", f"|<v|psi>| = {ov:.9f}, width {d.num_qubits}", dict(rep, overlap=float(ov)))
+    # light entries (|a_k|^2 <= 1e-6, i.e. amplitudes 1e-3 .. 0): the same marginal compared to 1e-9 absolute and
+    # as a modulus sqrt(P) vs |a_k| to 1e-7 (a dropped amplitude of 1e-6 is a modulus error of 1e-6; the float
+    # noise of 2*asin next to 1 is <= 3e-8 on the angle, <= 1.5e-8 on a modulus)
+    light = want <= 1e-6
+    lerr = float(np.abs(probs - want)[light].max()) if light.any() else 0.0
+    merr = float(np.abs(np.sqrt(probs) - np.sqrt(want)).max())
+    if lerr > 1e-9 or merr > TOL:
+        k = int(np.argmax(np.abs(np.sqrt(probs) - np.sqrt(want))))
+        ctx.fail(base + ":marginal-light", f"sqrt P(output={k}) = {math.sqrt(probs[k]):.3e}, |a_k| = {math.sqrt(want[k]):.3e} "
+                 f"(light-entry probability err {lerr:.3e}, modulus err {merr:.3e})",
+                 dict(rep, observed=probs.tolist(), expected=want.tolist()))
+        return
+    if light.any() and float(want[light].max()) > 0:
+        ctx.count("oracle:light-entries-checked")
+    if kind == "bdsp" and gate_split(n, s) == n:
+        vn = v / np.linalg.norm(v)
+        ip = np.vdot(vn, psi)
+        ov = abs(ip)
+        # entrywise: psi = e^{i g} v with ONE phase g (the overlap alone is second order in an amplitude error)
+        dev = float(np.abs(psi - (ip / ov) * vn).max()) if ov > 0 and d.num_qubits == n else 1.0
+        if d.num_qubits != n or abs(ov - 1) > TOL or dev > TOL:
+            ctx.fail(base + ":s=n-state", f"|<v|psi>| = {ov:.9f}, max |psi_k - e^(ig) a_k| = {dev:.3e}, width {d.num_qubits}",
+                     dict(rep, overlap=float(ov)))
             return
+        ctx.count("oracle:s=n-entrywise-checked")
     ctx.ok(base, nontrivial=n >= 2 and nz >= 2,
            sample={"class": rep["class"], "n": n, "s": s, "family": family, "width": d.num_qubits,
                    "nonzeros": nz, "max_marginal_err": err})
     return cap
 
 
-def tie_case(ctx, kind, v, s, family, form="plain", wires=None):
+def tie_case(ctx, kind, v, s, family, form="plain", wires=None, builder=None):
     try:
-        gate, d, cap = build(kind, v, s, form, wires)
+        gate, d, cap = builder() if builder else build(kind, v, s, form, wires)
     except Exception:
         return  # reported by the oracle as `:raises`
     mag, arg = leaves_of(cap["state_tree"])
@@ -717,6 +747,428 @@ UNREACHED_JUSTIFIED = {
 }
 
 
+# ------------------------------------------------------------------------------------------------
+# input-diversity section: element types / scale structure / sign-phase structure / call forms / sizes
+# ------------------------------------------------------------------------------------------------
+# Every case: the ORIGINAL user object `x` (list / tuple / ndarray of some dtype / list of numpy scalars) goes to the
+# real entry point under one call form; the ideal is computed from a = np.asarray(x, dtype=complex) by the harness
+# itself (|a_k|^2 / sum |a|^2, widths from the requested split); tie (allocation table, widths, gate list vs the
+# Lean model) wherever the JSON channel carries the input (everything but negative zeros).
+
+REAL_ELEMS = ["list-float", "tuple-float", "list-np-f64", "list-np-f32", "f64", "f32", "c128", "c64",
+              "list-np-c128", "list-mixed"]
+CPLX_ELEMS = ["list-complex", "tuple-complex", "c128", "c64", "list-np-c128", "list-np-c64", "list-mixed"]
+INT_ELEMS = ["list-int", "tuple-int", "i64", "list-np-i64", "list-mixed", "list-float", "f32", "c64"]
+
+
+def _div_input(a, elem):
+    """The user-side object holding the values `a` (complex array) in container / element type `elem`."""
+    a = [complex(z) for z in a]
+    re_ = [z.real for z in a]
+    if elem == "list-complex":
+        return list(a)
+    if elem == "tuple-complex":
+        return tuple(a)
+    if elem == "list-float":
+        return [float(z) for z in re_]
+    if elem == "tuple-float":
+        return tuple(float(z) for z in re_)
+    if elem == "list-int":
+        return [int(round(z)) for z in re_]
+    if elem == "tuple-int":
+        return tuple(int(round(z)) for z in re_)
+    if elem == "list-mixed":
+        # a different scalar type per position: python int/float, numpy int64/float64, python complex, numpy complex128
+        out = []
+        for k, z in enumerate(a):
+            if z.imag != 0:
+                out.append(z if k % 2 == 0 else np.complex128(z))
+            elif z.real == int(z.real):
+                out.append([int(z.real), np.int64(int(z.real)), complex(z.real, 0.0)][k % 3])
+            else:
+                out.append([float(z.real), np.float64(z.real), complex(z.real, 0.0)][k % 3])
+        return out
+    if elem == "list-np-f64":
+        return [np.float64(z) for z in re_]
+    if elem == "list-np-f32":
+        return [np.float32(z) for z in re_]
+    if elem == "list-np-i64":
+        return [np.int64(int(round(z))) for z in re_]
+    if elem == "list-np-c128":
+        return [np.complex128(z) for z in a]
+    if elem == "list-np-c64":
+        return [np.complex64(z) for z in a]
+    if elem in ("f64", "f32"):
+        return np.array(re_, dtype=np.float64 if elem == "f64" else np.float32)
+    if elem == "i64":
+        return np.array([int(round(z)) for z in re_], dtype=np.int64)
+    if elem in ("c128", "c64"):
+        return np.array(a, dtype=np.complex128 if elem == "c128" else np.complex64)
+    raise ValueError(elem)
+
+
+# any form that passes {'split': s} may carry the suffix ":np-int64" / ":np-int32": the split is then that numpy scalar
+DIV_SPLIT_TYPES = {"np-int64": np.int64, "np-int32": np.int32}
+DIV_CTOR_CALLS = ["ctor", "ctor-omit", "ctor-positional", "ctor-label", "opt-empty", "opt-split-none",
+                  "opt-reused-first", "opt-reused-second", "opt-reused-same", "copy-before-def", "copy-after-def", "twice"]
+DIV_STATIC_CALLS = ["static-none", "static-none-kw", "static-ints", "static-desc", "static-tuple", "static-qobj",
+                    "static-regs", "static-positional", "static-omit-opt"]
+
+
+def _div_build(kind, x, s, call, wires=None, other=None):
+    """(gate, definition, capture) for the user object `x` under call form `call`.  `wires`: wire list for the static /
+    twice forms; `other`: the other split value written into the shared opt_params dict (opt-reused-*)."""
+    from qiskit import QuantumCircuit, QuantumRegister
+    n = int(round(math.log2(len(x))))
+    w = declared_width(kind, n, s)
+    if kind == "bdsp":
+        import qclib.state_preparation.bdsp as mod
+        cls = mod.BdspInitialize
+    else:
+        import qclib.state_preparation.dcsp as mod
+        cls = mod.DcspInitialize
+    if call == "opt-npint":        # name used by older replay payloads
+        call = "ctor:np-int64"
+    styp = int
+    if ":" in call:
+        call, suffix = call.split(":")
+        styp = DIV_SPLIT_TYPES[suffix]
+        assert s is not None and kind == "bdsp"
+    opt = None if s is None else {"split": styp(s)}
+
+    def ctor(**extra):
+        return cls(x, **extra) if kind == "dcsp" else cls(x, opt_params=opt, **extra)
+
+    with capture(mod) as cap:
+        host = None
+        if call == "ctor":
+            gate = ctor()
+        elif call == "ctor-omit":          # opt_params not passed at all
+            assert s is None
+            gate = cls(x)
+        elif call == "ctor-positional":
+            gate = cls(x, None, opt) if kind == "bdsp" else cls(x, None)
+        elif call == "ctor-label":
+            gate = ctor(label="psi")
+        elif call == "opt-empty":
+            gate = cls(x, opt_params={})
+        elif call == "opt-split-none":
+            gate = cls(x, opt_params={"split": None})
+        elif call == "opt-reused-first":
+            # the dict is changed and used for a second gate BEFORE the first gate's definition is built
+            dct = {"split": styp(s)}
+            gate = cls(x, opt_params=dct)
+            dct["split"] = other
+            g2 = cls(x, opt_params=dct)
+            _ = g2.definition
+        elif call == "opt-reused-second":
+            dct = {"split": other}
+            g0 = cls(x, opt_params=dct)
+            _ = g0.definition
+            dct["split"] = styp(s)
+            gate = cls(x, opt_params=dct)
+            dct["split"] = other
+        elif call == "opt-reused-same":
+            # one dict object, unchanged, used for two gates (other is None); the second gate is the one observed
+            dct = {"split": styp(s)}
+            g0 = cls(x, opt_params=dct)
+            gate = cls(x, opt_params=dct)
+        elif call == "copy-before-def":
+            gate = ctor().copy()
+        elif call == "copy-after-def":
+            g0 = ctor()
+            _ = g0.definition
+            gate = g0.copy()
+        elif call == "twice":
+            gate = ctor()
+            host = QuantumCircuit(2 * w)
+            w1, w2 = list(wires[:w]), list(wires[w:])
+            host.append(gate, w1)
+            host.append(gate, w2)
+            cap["host"], cap["wires"], cap["wires_list"] = host, w1, [w1, w2]
+        elif call.startswith("static"):
+            kw = {} if kind == "dcsp" else {"opt_params": opt}
+            if call in ("static-none", "static-none-kw", "static-desc"):
+                host = QuantumCircuit(w)
+            elif call == "static-regs":
+                host = QuantumCircuit(QuantumRegister(w // 2 + 1, "b"), QuantumRegister(w - w // 2, "a"))
+            else:
+                host = QuantumCircuit(max(wires) + 1)
+            if call == "static-none":
+                cls.initialize(host, x, **kw)
+                wires = list(range(w))
+            elif call == "static-none-kw":
+                cls.initialize(host, x, qubits=None, **kw)
+                wires = list(range(w))
+            elif call in ("static-ints", "static-desc"):
+                cls.initialize(host, x, qubits=list(wires), **kw)
+            elif call == "static-tuple":
+                cls.initialize(host, x, qubits=tuple(wires), **kw)
+            elif call in ("static-qobj", "static-regs"):
+                cls.initialize(host, x, qubits=[host.qubits[i] for i in wires], **kw)
+            elif call == "static-positional":
+                if kind == "bdsp":
+                    cls.initialize(host, x, list(wires), opt)
+                else:
+                    cls.initialize(host, x, list(wires))
+            elif call == "static-omit-opt":
+                assert s is None
+                cls.initialize(host, x, qubits=list(wires))
+            else:
+                raise ValueError(call)
+            gate = host.data[0].operation
+            cap["host"], cap["wires"] = host, list(wires)
+        else:
+            raise ValueError(call)
+        d = gate.definition
+    return gate, d, cap
+
+
+def _div_wires(call, kind, n, s, r):
+    call = call.split(":")[0]
+    w = declared_width(kind, n, s)
+    if call == "twice":
+        return r.sample(range(2 * w), 2 * w)
+    if call == "static-desc":
+        return list(range(w - 1, -1, -1))
+    if call == "static-regs":
+        return r.sample(range(w + 1), w)
+    if call in ("static-ints", "static-tuple", "static-qobj", "static-positional", "static-omit-opt"):
+        ws = r.sample(range(w + 2), w)
+        if w > 1 and ws == sorted(ws):
+            ws = ws[::-1]
+        return ws
+    return None
+
+
+def _diversity_case(ctx, kind, a, s, fam, elem="list-complex", call="ctor", wires=None, other=None, tie=True,
+                    counters=()):
+    """One diversity case: user object of element type `elem` holding the values `a`, call form `call`."""
+    x = _div_input(a, elem)
+    v = np.asarray(x, dtype=complex)        # the harness's own conversion of the ORIGINAL input
+    if len(v) != len(a) or np.abs(v - np.asarray(a, dtype=complex)).max() > 1e-6:
+        raise AssertionError(f"harness: element type {elem} does not hold the values")
+    form = f"div:{elem}:{call}"
+    builder = lambda: _div_build(kind, x, s, call, wires, other)
+    extra = {"div": {"elem": elem, "call": call, "other": other, "tie": bool(tie)}}
+    if tie:
+        tie_case(ctx, kind, v, s, fam, form=form, wires=wires, builder=builder)
+    cap = oracle_case(ctx, kind, v, s, fam, form=form, wires=wires, builder=builder, rep_extra=extra)
+    n = int(round(math.log2(len(v))))
+    for c in counters:
+        ctx.count("diversity:" + c)
+    ctx.count(f"diversity:elem:{elem}")
+    ctx.count(f"diversity:call:{kind}:{call}")
+    ctx.count(f"diversity:size:{kind}:n={n}:s={'default' if s is None else 'n' if s == n else s}")
+    return cap
+
+
+def _ph(r, cplx=True):
+    return cmath.exp(1j * r.uniform(-3.0, 3.0)) if cplx else complex(r.choice([-1.0, 1.0]))
+
+
+def _diversity_vectors(ctx, n):
+    """(values, family key, counters, tie-able): scale structure and sign / phase structure, all valid unit vectors."""
+    r = ctx.nprng()
+    dim = 2 ** n
+    unit = lambda v: np.asarray(v, dtype=complex) / np.linalg.norm(np.asarray(v, dtype=complex))
+    light = [1e-3, 1e-4, 1e-5, 1e-6]
+
+    def tail(cplx, start=0):
+        return np.array([light[(start + k) % 4] * r.uniform(0.7, 1.3) * _ph(r, cplx) for k in range(dim)])
+
+    # --- scale: heavy head + light tail 1e-3 .. 1e-6
+    v = tail(True); v[0] = _ph(r)
+    yield unit(v), "div-head-start", ["scale:head-start"], True
+    v = tail(True, 1); v[dim - 1] = _ph(r)
+    yield unit(v), "div-head-end", ["scale:head-end"], True
+    v = tail(False, 2); v[dim // 2] = -0.8
+    if dim > 2:
+        v[dim // 2 + 1] = 0.6
+    yield unit(v), "div-head-mid-real", ["scale:head-mixed-real"], True
+    if n >= 2:
+        v = tail(True, 3); v[1] = _ph(r); v[dim - 2] = 0.7 * _ph(r)
+        yield unit(v), "div-two-heads", ["scale:two-heads"], True
+        # light tail with exact zeros between
+        v = tail(True); v[::2] = 0.0; v[dim - 1] = 1.0
+        yield unit(v), "div-head-end-sparse-tail", ["scale:head-light-sparse"], True
+    # one light magnitude m everywhere but the head: every angle that separates the head from light mass is ~2m
+    # (head first: RY angles just above 0; head last: just below pi), and heavy / light alternating: a whole level of
+    # such angles (the multiplexed combinations (a0 +- a1)/2 of the top-down part are then all ~m or below)
+    for tag, m in (("1e-3", 1e-3), ("1e-4", 1e-4), ("1e-5", 1e-5), ("1e-6", 1e-6)):
+        if n == 4 and tag in ("1e-4", "1e-5"):
+            continue
+        lt = lambda: m * r.uniform(0.7, 1.3) * _ph(r)
+        v = np.array([lt() for _ in range(dim)]); v[0] = _ph(r)
+        yield unit(v), f"div-head-start:m={tag}", [f"scale:head-start:tail={tag}"], True
+        v = np.array([lt() for _ in range(dim)]); v[dim - 1] = _ph(r)
+        yield unit(v), f"div-head-end:m={tag}", [f"scale:head-end:tail={tag}"], True
+        if tag in ("1e-4", "1e-6"):
+            v = np.array([r.uniform(0.5, 1.0) * _ph(r) if k % 2 == 0 else lt() for k in range(dim)])
+            yield unit(v), f"div-alt-heavy-light:m={tag}", [f"scale:alternating-heavy-light:{tag}"], True
+            v = np.array([r.uniform(0.5, 1.0) * _ph(r, False) if k % 2 == 1 else m * r.uniform(0.7, 1.3) * _ph(r, False)
+                          for k in range(dim)])
+            yield unit(v), f"div-alt-light-heavy-real:m={tag}", [f"scale:alternating-light-heavy:{tag}"], True
+    # --- all-equal moduli, phases exactly +-1, +-i
+    units = [1, -1, 1j, -1j]
+    yield unit([units[int(r.integers(4))] for _ in range(dim)]), "div-equal-mod-pm1-pmi", ["phase:equal-moduli-+-1+-i"], True
+    yield unit([-1.0] * dim), "div-all-minus", ["phase:global--1", "scale:all-equal"], True
+    yield unit([1j] * dim), "div-all-i", ["phase:global-i", "scale:all-equal"], True
+    yield unit([(-1.0) ** k for k in range(dim)]), "div-alternating", ["phase:alternating-sign"], True
+    # --- exactly repeated values
+    aa, bb = r.uniform(0.3, 1.0) * _ph(r), r.uniform(0.3, 1.0) * _ph(r)
+    yield unit([aa if (k // 2) % 2 == 0 else bb for k in range(dim)] if dim > 2 else [aa, aa]), "div-repeated", ["scale:repeated-values"], True
+    # --- all negative reals / purely imaginary / global phase -1, i on a positive vector
+    pos = np.array([r.uniform(0.2, 1.0) for _ in range(dim)])
+    yield unit(-pos), "div-all-negative", ["phase:all-negative-real"], True
+    yield unit(1j * pos * np.array([r.choice([-1.0, 1.0]) for _ in range(dim)])), "div-pure-imag", ["phase:purely-imaginary"], True
+    yield unit(1j * pos), "div-global-i", ["phase:global-i"], True
+    sg = np.array([r.choice([-1.0, 1.0]) for _ in range(dim)])
+    yield unit(-(pos * sg)), "div-real-signed", ["phase:real-signed-zero-imag"], True
+    # --- almost real: imaginary parts 1e-4 .. 1e-6 of either sign (relative phases just off 0 / pi; seen at s = n)
+    for tag, m in (("1e-4", 1e-4), ("1e-6", 1e-6)):
+        v = pos * sg + 1j * np.array([m * r.uniform(0.7, 1.3) * r.choice([-1.0, 1.0]) for _ in range(dim)])
+        yield unit(v), f"div-tiny-imag:{tag}", [f"phase:tiny-imaginary-parts:{tag}"], True
+    # --- norm carried by a single sub-tree
+    if n >= 2:
+        v = np.zeros(dim, dtype=complex); q = dim // 4
+        v[3 * q:] = [r.uniform(0.3, 1.0) * _ph(r) for _ in range(q)]
+        yield unit(v), "div-last-quarter", ["scale:single-subtree"], True
+        v = np.zeros(dim, dtype=complex)
+        v[q:2 * q] = [r.uniform(0.3, 1.0) * _ph(r) for _ in range(q)]
+        yield unit(v), "div-second-quarter", ["scale:single-subtree"], True
+    # --- an output qubit constant |0> / |1> in every branch (a level with all RY = 0 resp. pi, RZ != 0)
+    for q in range(n):
+        for bit in (0, 1):
+            v = np.array([r.uniform(0.3, 1.0) * _ph(r) if ((k >> q) & 1) == bit else 0.0 for k in range(dim)])
+            yield unit(v), f"div-qubit{q}-const{bit}", [f"phase:output-qubit-constant-{bit}"], True
+    # --- negative zeros (oracle only: the JSON channel to the Lean driver does not carry the sign of zero)
+    v = np.array([complex(r.uniform(0.3, 1.0) * r.choice([-1, 1]), -0.0) if k % 2 else complex(-0.0, 0.0) for k in range(dim)])
+    yield _negzero_unit(v), "div-negzero-a", ["elem:negative-zero"], False
+    v = np.array([complex(-0.0, r.uniform(0.3, 1.0)) if k % 2 == 0 else complex(0.0, -0.0) for k in range(dim)])
+    yield _negzero_unit(v), "div-negzero-b", ["elem:negative-zero"], False
+
+
+def _negzero_unit(v):
+    """Normalise by a positive real factor applied to real and imaginary parts separately (keeps the signs of zeros)."""
+    nrm = float(np.linalg.norm(v))
+    return np.array([complex(z.real / nrm, z.imag / nrm) for z in v])
+
+
+def _basis_vectors(n):
+    """A single amplitude of modulus exactly 1 at each index, phases 1, -1, i, -i."""
+    dim = 2 ** n
+    idx = range(dim) if n <= 3 else (0, 5, 10, dim - 1)
+    phs = [1, -1, 1j, -1j]
+    for k in idx:
+        for t in (range(4) if n == 1 else (k % 4, (k + 1 + k // 4) % 4) if n == 2 else (k % 4,)):
+            v = np.zeros(dim, dtype=complex)
+            v[k] = phs[t]
+            yield v, f"div-basis:k={k}:ph={['1', '-1', 'i', '-i'][t]}"
+
+
+def _splits(n):
+    return [("bdsp", None)] + [("bdsp", s) for s in range(1, n + 1)] + [("dcsp", None)]
+
+
+def _diversity_values(ctx):
+    """Families 2, 3, 5: scale and phase structure, every n = 1..4 (5 for a few), every split + default + DCSP."""
+    for n in (1, 2, 3, 4):
+        for a, fam, counters, tie in _diversity_vectors(ctx, n):
+            if n == 4 and fam.startswith(("div-qubit1", "div-qubit2", "div-negzero-b", "div-alternating", "div-global-i")):
+                continue
+            for kind, s in _splits(n):
+                _diversity_case(ctx, kind, a, s, fam, tie=tie, counters=counters)
+        for a, fam in _basis_vectors(n):
+            for kind, s in _splits(n):
+                _diversity_case(ctx, kind, a, s, fam, counters=["scale:single-amplitude-modulus-1"])
+    # n = 5: default split 3 (odd n), s = n-1, s = n (the wider splits and DCSP are width-only)
+    n = 5
+    for a, fam, counters, tie in _diversity_vectors(ctx, n):
+        if fam in ("div-head-end", "div-two-heads", "div-qubit0-const0", "div-qubit3-const1", "div-last-quarter"):
+            for kind, s in (("bdsp", None), ("bdsp", 4), ("bdsp", 5), ("bdsp", 1), ("dcsp", None)):
+                _diversity_case(ctx, kind, a, s, fam, tie=tie, counters=counters)
+
+
+def _diversity_elements(ctx):
+    """Family 1: element types / containers, for both classes; s = n (phases observed), default, s = 1, DCSP."""
+    r = ctx.nprng()
+    for n in (1, 2, 3):
+        dim = 2 ** n
+        cfgs = [("bdsp", n), ("bdsp", None), ("dcsp", None)] + ([("bdsp", 1)] if n > 1 else []) + ([("bdsp", 2)] if n > 2 else [])
+        # real, signed (negative entries, zero imaginary part in the complex dtypes)
+        real = np.array([r.uniform(0.2, 1.0) * r.choice([-1.0, 1.0]) for _ in range(dim)])
+        real[int(r.integers(dim))] *= -1.0 if np.all(real > 0) else 1.0
+        real = real / np.linalg.norm(real)
+        # dyadic: exactly representable in float32, exactly normalised
+        # n >= 2: dyadic entries, exactly representable in float32 and exactly normalised; n = 1: 0.6 / -0.8 (rounded by float32)
+        dy = np.array([0.6, -0.8] if n == 1 else [r.choice([-0.5, 0.5]) for _ in range(4)] if n == 2 else
+                      [r.choice([-0.25, 0.25]) for _ in range(4)] + [0.5, -0.5, 0.5, 0.0])
+        for vals, fam in ((real, "div-elem-real"), (dy, "div-elem-dyadic")):
+            for elem in REAL_ELEMS:
+                for kind, s in cfgs:
+                    _diversity_case(ctx, kind, vals, s, fam, elem=elem, counters=["elem-family:real-signed"])
+        cp = np.array([r.uniform(0.2, 1.0) * _ph(r) for _ in range(dim)])
+        cp = cp / np.linalg.norm(cp)
+        for elem in CPLX_ELEMS:
+            for kind, s in cfgs:
+                _diversity_case(ctx, kind, cp, s, "div-elem-complex", elem=elem, counters=["elem-family:complex"])
+        # integer basis vectors [0, 1, 0, 0], [0, 0, 0, -1], ...
+        for k, sign in ((1 % dim, 1), (dim - 1, -1), (0, -1)):
+            iv = np.zeros(dim)
+            iv[k] = sign
+            for elem in INT_ELEMS:
+                for kind, s in cfgs:
+                    _diversity_case(ctx, kind, iv, s, f"div-elem-int:k={k}:sign={sign}", elem=elem,
+                                    counters=["elem-family:integer-basis"])
+
+
+def _diversity_calls(ctx):
+    """Family 4: call forms of the constructor and of the static `initialize` helper (every keyword, every split)."""
+    r = ctx.rng
+    for n in (1, 2, 3):
+        vecs = [(a, fam, tie) for a, fam, _, tie in _diversity_vectors(ctx, n)
+                if fam in ("div-head-end", "div-real-signed", "div-qubit0-const0", "div-equal-mod-pm1-pmi")]
+        pick = lambda: vecs[r.randrange(len(vecs))]
+        for kind, s in _splits(n):
+            calls = ["ctor-positional", "ctor-label", "copy-before-def", "copy-after-def", "twice",
+                     "static-none", "static-none-kw", "static-ints", "static-desc", "static-tuple", "static-qobj",
+                     "static-regs", "static-positional"]
+            if s is None:
+                calls += ["ctor-omit", "static-omit-opt"] + (["opt-empty", "opt-split-none"] if kind == "bdsp" else [])
+            for call in calls:
+                a, fam, tie = pick()
+                if call == "twice" and 2 * declared_width(kind, n, s) > DENSE_CAP:
+                    continue
+                _diversity_case(ctx, kind, a, s, fam, call=call, wires=_div_wires(call, kind, n, s, r), tie=tie)
+            if kind == "bdsp" and s is not None:
+                # the split as a numpy integer (e.g. taken from np.arange(1, n + 1)): constructor and static helper
+                for call in ("ctor:np-int64", "ctor:np-int32", "ctor-positional:np-int32", "copy-before-def:np-int64",
+                             "opt-reused-same:np-int32", "static-none:np-int64", "static-none-kw:np-int32",
+                             "static-ints:np-int32", "static-qobj:np-int64", "static-positional:np-int64"):
+                    a, fam, tie = pick()
+                    _diversity_case(ctx, kind, a, s, fam, call=call, wires=_div_wires(call, kind, n, s, r), tie=tie)
+                a, fam, tie = pick()
+                _diversity_case(ctx, kind, a, s, fam, call="opt-reused-same", tie=tie)
+                for other in [o for o in range(1, n + 1) if o != s]:
+                    for call in ("opt-reused-first", "opt-reused-second"):
+                        a, fam, tie = pick()
+                        _diversity_case(ctx, kind, a, s, fam, call=call, other=other, tie=tie)
+    # n = 4: the static helper and the reused dict at every split (widths up to 15/16: own propagation / width only)
+    n = 4
+    a, fam, tie = [(a, fam, tie) for a, fam, _, tie in _diversity_vectors(ctx, n) if fam == "div-two-heads"][0]
+    for s in (1, 2, 3, 4):
+        _diversity_case(ctx, "bdsp", a, s, fam, call="static-qobj", wires=_div_wires("static-qobj", "bdsp", n, s, r))
+        _diversity_case(ctx, "bdsp", a, s, fam, call="opt-reused-second", other=1 + s % 4)
+    _diversity_case(ctx, "dcsp", a, None, fam, call="static-ints", wires=_div_wires("static-ints", "dcsp", n, None, r))
+
+
+def _diversity_all(ctx):
+    _diversity_values(ctx)
+    _diversity_elements(ctx)
+    _diversity_calls(ctx)
+
+
 def run(ctx, nmax=None):
     gate_conventions(ctx)
     gen_width_tie(ctx)
@@ -751,6 +1203,11 @@ def run(ctx, nmax=None):
             ctx.count(f"boundary:ucr-leaf:level-is-{tag}")
         else:
             ctx.count(f"boundary:{counter}:{tag}")
+    ctx.notes.append("diversity cases: the user object (list / tuple / ndarray int64, float32/64, complex64/128 / list of numpy "
+                     "scalars / negative zeros) goes to the constructor or the static helper under each call form; ideal "
+                     "|a_k|^2 / sum|a|^2 from np.asarray(x, dtype=complex); light-tail amplitudes are 1e-3 .. 1e-6 (x 0.7..1.3), "
+                     "far above the `!= 0.0` / 1e-8 tests; negative-zero inputs are oracle-only")
+    _diversity_all(ctx)
 
 
 def search(ctx, hints):
@@ -771,10 +1228,18 @@ def search(ctx, hints):
                     cap_own=OWN_CAP_THOROUGH)
     for kind, n, v, s, fam in cases(ctx, 5, 1):
         oracle_case(ctx, kind, v, s, fam, cap_own=OWN_CAP_QUICK)
+    _diversity_all(ctx)
 
 
 def replay(ctx, payload):
     r = payload["replay"]
+    if r.get("div"):
+        dv = r["div"]
+        # complex(re, im) keeps the signs of zeros (re + 1j * im would not)
+        a = np.array([complex(x, y) for x, y in zip(r["re"], r["im"])])
+        _diversity_case(ctx, r["kind"], a, r["s"], r.get("family", "replay"), elem=dv["elem"], call=dv["call"],
+                        wires=r.get("wires"), other=dv.get("other"), tie=dv.get("tie", True))
+        return
     v = np.array(r["re"]) + 1j * np.array(r["im"])
     tie_case(ctx, r["kind"], v, r["s"], r.get("family", "replay"), r.get("form", "plain"), r.get("wires"))
     oracle_case(ctx, r["kind"], v, r["s"], r.get("family", "replay"), cap_own=OWN_CAP_THOROUGH,
